@@ -3,10 +3,11 @@
     base.py: kernel call with its argument order, what is handed to FileWriter.cwrite and how many elements) o
     Gen.Kernels loop nests (regenerated from kernels.py).  The data section of the output is the concatenation of the
     emitted blocks.  [Sel fs nch start t c] = sample start+t, channel c of the input stream.
-    Zero-DM removal (float arithmetic) is checked by the oracle only. *)
+    Zero-DM removal: the data flow is proved over the integers (C07_remove_zerodm: the kernel uses only ring operations); float32 rounding and
+    the reduction to the output depth ("within one quantisation level") are checked by the oracle. *)
 From Coq Require Import ZArith List Bool.
 Require Import SPP.Base.Rt SPP.Base.Iter SPP.Gen.Kernels SPP.Gen.Plan SPP.Gen.TransformSites SPP.Model.Stream SPP.Model.Plan SPP.Model.C07_pipe
-               SPP.Model.C16_File SPP.Model.C14_filters SPP.Proofs.C02_stream SPP.Proofs.C01_plan SPP.Proofs.C06_reduce SPP.Proofs.C07_transforms.
+               SPP.Model.C16_File SPP.Model.C14_filters SPP.Proofs.C02_stream SPP.Proofs.C01_plan SPP.Proofs.C06_reduce SPP.Proofs.C07_transforms SPP.Proofs.C07_zerodm.
 Import ListNotations.
 Open Scope Z_scope.
 
@@ -80,10 +81,20 @@ Theorem C07_subband : forall fs nch N gulp start nsamps md nsub delays,
 Proof. exact subband_spec. Qed.
 Print Assumptions C07_subband.
 
+(** zero-DM removal: every output sample is x[t,c] - (sum over channels of x[t,.]) * chanwts[c] + bpass[c], for every gulp and whatever
+    the output buffer (reused from block to block) held; no sample of another time step enters *)
+Theorem C07_remove_zerodm : forall fs nch N gulp start nsamps,
+  1 <= nfiles fs -> 1 <= nch -> SPP.Model.Stream.total fs = N * nch -> 0 <= start -> 1 <= nsamps -> start + nsamps <= N -> 1 <= gulp ->
+  forall junk bp w, zerodm_pipe fs nch gulp start nsamps junk bp w =
+    Some (flat_map (fun t => map (fun c => Sel fs nch start t c - zdm fs nch start t * w c + bp c) (zrange nch)) (zrange nsamps)).
+Proof. exact zerodm_spec. Qed.
+Print Assumptions C07_remove_zerodm.
+
 (** non-vacuity: 2 files, 6 samples x 4 channels, sub-range [1,6) *)
 Example C07_example :
   let fs := [mkfile [224] [1;2;3;4; 5;6;7;8]; mkfile [225] [9;10;11;12; 13;14;15;16; 17;18;19;20; 21;22;23;24]] in
   invert_pipe fs 4 2 1 3 (fun _ => 99) = Some [8;7;6;5; 12;11;10;9; 16;15;14;13] /\
   downsample_pipe fs 4 1 1 5 div_floor (fun _ => 99) 2 2 = Some [(5+6+9+10)/4; (7+8+11+12)/4; (13+14+17+18)/4; (15+16+19+20)/4] /\
-  subband_pipe fs 4 2 1 5 1 2 (of_list [0;1;0;1]) (fun _ => 99) = Some [5+10; 7+12; 9+14; 11+16; 13+18; 15+20; 17+22; 19+24].
+  subband_pipe fs 4 2 1 5 1 2 (of_list [0;1;0;1]) (fun _ => 99) = Some [5+10; 7+12; 9+14; 11+16; 13+18; 15+20; 17+22; 19+24] /\
+  zerodm_pipe fs 4 2 1 2 (fun _ => 99) (of_list [1;0;0;0]) (of_list [0;1;0;-1]) = Some [5+1; 6-26; 7; 8+26; 9+1; 10-42; 11; 12+42].
 Proof. vm_compute. repeat split; reflexivity. Qed.
